@@ -100,3 +100,206 @@ def scalar_products(F):
             else:
                 m, c = d[0]
                 yield inst, f, False, "the column sums are not the product: the coefficient of %s differs by %d" % (show_mono(m), c)
+
+
+
+def montgomery_reduce(F):
+    """yield (instance, fn, ok, msg): R * (value handed to the final conditional subtraction) = input + n l for an integer polynomial n, i.e.
+    the reduction divides by R modulo l.  The carries of the first half are exact divisions: p_i = (sum_i LFACTOR) mod 2^w and
+    1 + LFACTOR l_0 = 0 mod 2^w make every coefficient of sum_i + p_i l_0 a multiple of 2^w (decided on the polynomial, with the constants' values)."""
+    Lnum = 2 ** 252 + 27742317777372353535851937790883648493
+    for tag, ns, bits in (("52", 5, 52), ("29", 9, 29)):
+        S = r"scalar::Scalar%s" % tag
+        f = one(F, S + r"::montgomery_reduce$")
+        if f is None:
+            continue
+        inst = "Scalar%s::montgomery_reduce" % tag
+        limbs_in = ("arr", tuple(LP.lp(pvar("t%d" % i)) for i in range(2 * ns - 1)))
+        try:
+            ret, ip, root = LP.run(F, f, [limbs_in], watch=S + r"::sub$")
+        except Exception as e:
+            yield inst, f, False, "analysis failed: %r" % (e,)
+            continue
+        lg = getattr(ip.models, "logged", [])
+        if len(lg) != 1:
+            yield inst, f, False, "expected one final conditional subtraction, found %d" % len(lg)
+            continue
+
+        def sval(v, cnt):
+            while v is not None and v[0] == "st" and len(v[1]) == 1:
+                v = v[1][0]
+            if v is None or v[0] != "arr" or len(v[1]) != cnt:
+                return None
+            tot = pconst(0)
+            for k, x in enumerate(v[1]):
+                p = LP.as_poly(x)
+                if p is None:
+                    return None
+                tot = padd(tot, pmul(p, pconst(1 << (bits * k))))
+            return tot
+        r, sub2 = sval(lg[0][0], ns), sval(lg[0][1], ns)
+        tin = sval(limbs_in, 2 * ns - 1)
+        if r is None:
+            yield inst, f, False, "the value handed to the final subtraction left the polynomial domain"
+            continue
+        if sub2 is None or sub2 != pconst(Lnum):
+            yield inst, f, False, "the final conditional subtraction does not subtract l"
+            continue
+        d = padd(pmul(r, pconst(1 << (bits * ns))), tin, -1)
+        bad = [(m, c) for m, c in d if c % Lnum]
+        if bad:
+            m, c = bad[0]
+            yield inst, f, False, "R * result - input is not a multiple of l: the coefficient of %s is %d mod l" % (show_mono(m), c % Lnum)
+        else:
+            yield inst, f, True, "R r = input + n l identically (n an integer polynomial in the input limbs and %d opaque quotients; %d carries are exact divisions by LFACTOR's defining property); r then goes through the conditional subtraction of l" % (
+                len(ip.quot), getattr(ip, "exact_divisions", 0))
+
+
+# ---- AVX2 vector field kernels (LANEPOLY)
+SHUFFLES = {"AAAA": "AAAA", "BBBB": "BBBB", "CACA": "CACA", "DBBD": "DBBD", "ADDA": "ADDA", "CBCB": "CBCB", "ABAB": "ABAB", "BADC": "BADC",
+            "BACD": "BACD", "ABDC": "ABDC"}
+LANESETS = {"C": "C", "D": "D", "AB": "AB", "AC": "AC", "CD": "CD", "AD": "AD", "BC": "BC", "ABCD": "ABCD"}
+
+
+def enum_variants(F, rx):
+    for name, a in F.adts.items():
+        if re.search(rx, name) and a["kind"] == "Enum":
+            return [v["name"].split("::")[-1] for v in a["variants"]]
+    return None
+
+
+def vector_kernels(F):
+    """yield (instance, fn, ok, msg) for the AVX2 vector field: every kernel's four results are congruent mod p to the specification on
+    symbolic limbs, shuffle / blend are decided lane-exact for every variant of their control enums"""
+    import eng_lanepoly as LN
+    FE = r"vector::avx2::field::FieldElement2625x4"
+    if one(F, r"^curve25519_dalek::backend::" + FE + r"::reduce$") is None:
+        return
+    E = "ABCD"
+
+    def fn(rx):
+        return one(F, rx)
+
+    def run(f, mkargs):
+        ip = LN.new_interp(F)
+        args = mkargs(ip)
+        ret, root = ip.run_root(f, args)
+        return ip.deconst(ret) if ret is not None else None, ip
+
+    def decide(inst, f, mkargs, spec, exact=False):
+        """spec(e) -> polynomial the value of element e must be congruent to"""
+        if f is None:
+            yield inst, None, False, "kernel not found"
+            return
+        try:
+            ret, ip = run(f, mkargs)
+        except Exception as e:
+            yield inst, f, False, "analysis failed: %r" % (e,)
+            return
+        bad = None
+        for e in E:
+            got = LN.elem_value(ret, e)
+            if got is None:
+                bad = "element %s left the polynomial lane domain" % e
+                break
+            ok, w = LP.congruent(got, spec(e))
+            if not ok:
+                bad = "element %s is not congruent to the specification modulo p: the coefficient of %s differs by %d mod p" % (e, show_mono(w[0][0]), w[0][1] % LP.P)
+                break
+        if bad:
+            if ip.inexact_splits:
+                bad += " (%d 64-bit lane values that need not fit 32 bits were read as 32-bit lanes)" % ip.inexact_splits
+            yield inst, f, False, bad
+        else:
+            yield inst, f, True, "all four elements congruent to the specification mod p on symbolic limbs (%d opaque quotients, %d 64->32-bit lane reads all within their bound)" % (len(ip.quot), ip.splits)
+
+    S = LN.elem_sym
+    base = r"^curve25519_dalek::backend::" + FE
+    # mul: self b < 2.5, rhs b < 1.75
+    yield from decide("avx2:mul", fn(r"^<&'?\w* ?curve25519_dalek::backend::" + FE + r" as core::ops::Mul<&'?\w* ?curve25519_dalek::backend::" + FE + r">>::mul$"),
+                      lambda ip: [LN.fe4(ip, "x", 2.5), LN.fe4(ip, "y", 1.75)], lambda e: pmul(S("x", e), S("y", e)))
+    yield from decide("avx2:square_and_negate_D", fn(base + r"::square_and_negate_D$"), lambda ip: [LN.fe4(ip, "x", 1.5)],
+                      lambda e: pmul(pmul(S("x", e), S("x", e)), pconst(-1 if e == "D" else 1)))
+    yield from decide("avx2:reduce", fn(base + r"::reduce$"), lambda ip: [LN.fe4(ip, "x", 6.0)], lambda e: S("x", e))
+    yield from decide("avx2:negate_lazy", fn(base + r"::negate_lazy$"), lambda ip: [LN.fe4(ip, "x", 0.999)], lambda e: pmul(S("x", e), pconst(-1)))
+    yield from decide("avx2:neg", fn(r"^<curve25519_dalek::backend::" + FE + r" as core::ops::Neg>::neg$"), lambda ip: [LN.fe4(ip, "x", 4.0)], lambda e: pmul(S("x", e), pconst(-1)))
+    yield from decide("avx2:add", fn(r"^<curve25519_dalek::backend::" + FE + r" as core::ops::Add>::add$"), lambda ip: [LN.fe4(ip, "x", 1.0), LN.fe4(ip, "y", 1.0)],
+                      lambda e: padd(S("x", e), S("y", e)))
+    ds = {"A": ("B", "A", -1), "B": ("B", "A", 1), "C": ("D", "C", -1), "D": ("D", "C", 1)}
+    yield from decide("avx2:diff_sum", fn(base + r"::diff_sum$"), lambda ip: [LN.fe4(ip, "x", 0.01)], lambda e: padd(S("x", ds[e][0]), S("x", ds[e][1]), ds[e][2]))
+
+    def small(ip):
+        for k in range(4):
+            ip.symbound["s%d" % k] = 1 << 20
+        return [LN.fe4(ip, "x", 1.0), ("st", tuple(LP.lp(pvar("s%d" % k)) for k in range(4)))]
+    yield from decide("avx2:mul_small", fn(r"^<curve25519_dalek::backend::" + FE + r" as core::ops::Mul<\(u32, u32, u32, u32\)>>::mul$"), small,
+                      lambda e: pmul(S("x", e), pvar("s%d" % E.index(e))))
+
+    # new: four serial elements in, element k congruent to x_k; split: the inverse
+    def fe51(ip, sym):
+        for i in range(5):
+            ip.symbound["%s%d" % (sym, i)] = 1 << 54
+        return LP.limbs(sym, 5)
+
+    def v51(sym):
+        tot = pconst(0)
+        for i in range(5):
+            tot = padd(tot, pmul(pvar("%s%d" % (sym, i)), pconst(1 << (51 * i))))
+        return tot
+    yield from decide("avx2:new", fn(base + r"::new$"), lambda ip: [fe51(ip, "p"), fe51(ip, "q"), fe51(ip, "r"), fe51(ip, "s")],
+                      lambda e: v51("pqrs"[E.index(e)]))
+    f = fn(base + r"::split$")
+    if f is None:
+        yield "avx2:split", None, False, "kernel not found"
+    else:
+        try:
+            ret, ip = run(f, lambda ip: [LN.fe4(ip, "x", 1.0)])
+            bad = None
+            if ret is None or ret[0] != "arr" or len(ret[1]) != 4:
+                bad = "the result is not an array of four field elements"
+            else:
+                for k, e in enumerate(E):
+                    got = LP.value(ret[1][k], 5)
+                    if got is None:
+                        bad = "element %s left the polynomial domain" % e
+                        break
+                    ok, w = LP.congruent(got, S("x", e))
+                    if not ok:
+                        bad = "output %d is not the value of element %s: the coefficient of %s differs" % (k, e, show_mono(w[0][0]))
+                        break
+            yield "avx2:split", f, not bad, bad or "the four outputs are the values of elements A, B, C, D"
+        except Exception as e:
+            yield "avx2:split", f, False, "analysis failed: %r" % (e,)
+
+    # shuffle / blend: lane-exact for every control value
+    for kind, rx, table in (("shuffle", r"avx2::field::Shuffle$", SHUFFLES), ("blend", r"avx2::field::Lanes$", LANESETS)):
+        f = fn(base + r"::" + kind + "$")
+        vs = enum_variants(F, rx)
+        if f is None or not vs:
+            yield "avx2:" + kind, f, False, "kernel or its control enum not found"
+            continue
+        for vi, vn in enumerate(vs):
+            inst = "avx2:%s(%s)" % (kind, vn)
+            if vn not in table:
+                yield inst, f, False, "control value %s has no entry in the checker's table: its meaning must be confirmed" % vn
+                continue
+            try:
+                ctl = ("en", ((vi, ()),))
+                if kind == "shuffle":
+                    ret, ip = run(f, lambda ip: [LN.fe4(ip, "x", 1.0), ctl])
+                    want = {(e, j): pvar("x%s%d" % (table[vn][k], j)) for k, e in enumerate(E) for j in range(10)}
+                else:
+                    ret, ip = run(f, lambda ip: [LN.fe4(ip, "x", 1.0), LN.fe4(ip, "y", 1.0), ctl])
+                    want = {(e, j): pvar("%s%s%d" % ("y" if e in table[vn] else "x", e, j)) for e in E for j in range(10)}
+                got = LN.lanes_of(ret)
+                if got is None:
+                    yield inst, f, False, "the result left the lane domain"
+                    continue
+                bad = [k for k in want if got.get(k) != want[k]]
+                if bad:
+                    e, j = sorted(bad)[0]
+                    yield inst, f, False, "limb %d of element %s is %s, expected %s" % (j, e, "?" if got[(e, j)] is None else " + ".join(show_mono(m) for m, c in got[(e, j)]) or "0", show_mono(want[(e, j)][0][0]))
+                else:
+                    yield inst, f, True, "every limb of every element comes from the element the control names"
+            except Exception as e:
+                yield inst, f, False, "analysis failed: %r" % (e,)
